@@ -302,6 +302,7 @@ func init() {
 		errRulesFor(run, p, "primitives/sr25519")
 		arithmeticFoundations(c)
 		groupFoundations(c, true)
+		ownershipRules(c) // encodings handed out are copies; inputs are not modified
 		readFullRule(c)
 		transcriptFoundations(c)
 	}
